@@ -13,8 +13,8 @@ rm -rf "$C"; mkdir -p "$C"; (cd /repo && git archive HEAD) | tar -x -C "$C"
 (cd "$C" && git init -q && git add -A >/dev/null 2>&1 && git -c user.email=x@x -c user.name=x commit -qm base >/dev/null)
 for d in "$@"; do
   git -C "$C" checkout -q -- .; git -C "$C" apply "$(pwd)/$d" || { echo "$d: does not apply"; continue; }
-  e=$(/venv/bin/python tools/extract.py --repo "$C" --out lean/AioMySensors/Generated/Tables.lean --json /dev/null 2>&1 | tail -1 | cut -c1-80)
-  /venv/bin/python tools/translate.py --repo "$C" $OUTS --snapshot tools/bodies_snapshot.json --json /dev/null >/dev/null 2>&1
+  e=$(/venv/bin/python tools/extract.py --repo "$C" --out lean/AioMySensors/Generated/Tables.lean --json "${TMPDIR:-/tmp}/eval_micro_json.$$" 2>&1 | tail -1 | cut -c1-80)
+  /venv/bin/python tools/translate.py --repo "$C" $OUTS --snapshot tools/bodies_snapshot.json --json "${TMPDIR:-/tmp}/eval_micro_json.$$" >/dev/null 2>&1
   t=$(/venv/bin/python tools/translate_mqttclient.py --repo "$C" $GEN | tail -1 | cut -c1-200)
   if (cd lean && lake build AioMySensors.Generated.MqttObjectBodies >/tmp/micro_mq.log 2>&1); then :; else
     t="$t; fresh translation does not type-check -> $(/venv/bin/python tools/translate_mqttclient.py --repo "$C" $GEN --force-snapshot | tail -1 | cut -c1-60)"; fi
